@@ -7,7 +7,7 @@ STREAMS = ["plugins"]
 REGENERATE_SRC = True
 RULE = ("0..8 section plugins with random acyclic before/after graphs (plus constraints naming absent plugins, "
         "self-constraints, occasional cycles) given as list / tuple / set / generator / iterator, loaded twice, required flags, digests returning None or a value; configs = subsets "
-        "of the sections ± unknown sections ± a logging section; section content = a mapping, or (30 %) None / 0 / False / "
+        "of the sections ± unknown sections (incl. names that are parts of the word 'logging' and the empty name) ± a logging section; in 40% the same plugin objects have been loaded before with only some of them installed; section content = a mapping, or (30 %) None / 0 / False / "
         "'' / [] / {} / a list / a string, handed to the digest by identity; entry points substituted in "
         "cobald.daemon.core.config.get_entrypoints; non-trivial = at least two plugins called and at least one "
         "constraint between installed plugins; distinct = distinct canonical case JSON")
